@@ -2,6 +2,7 @@
 import contextlib
 import io
 import itertools
+import json
 
 import common
 from common import Outcome, LeanDriver
@@ -15,7 +16,9 @@ RULE = ("case = (acyclic pre/post graph over 2-6 tasks with parameters and defau
         "with baked positional/keyword arguments; tasks may have aliases, underscore names, autoprint, live in sub-collections "
         "(dotted names, sub-collection default shortcut); signatures range over plain parameters with defaults, *rest, "
         "keyword-only parameters and **kw, and call(...) entries differ in named values, in later extra positionals, in "
-        "keyword-only values or in **kw entries; DIFFERENT tasks may bear the same name in different collections (namesakes, "
+        "keyword-only values or in **kw entries; argument values are ints and strings plus - in call(...) entries and "
+        "(name, kwargs) requests - lists, dicts, sets, tuples, nested containers (equal ones built separately), 1 / 1.0 / True, "
+        "None, NaN objects and objects with their own __eq__ and no __hash__; DIFFERENT tasks may bear the same name in different collections (namesakes, "
         "own bodies, equal or different signatures), and several Task objects may wrap ONE body function or the products "
         "of one factory - under the same name in another sub-collection or under another name - each with its own pre/post "
         "lists and options; optional default task; request list of length 0-3, every item under one of the names the task "
@@ -28,14 +31,17 @@ RULE = ("case = (acyclic pre/post graph over 2-6 tasks with parameters and defau
         "wrapped by two same-named Task objects x 6 requests x dedupe on/off, every pre/post list of a third task over two "
         "namesake tasks docs.build / www.build x every request list of length <=2 x dedupe on/off, and every ordered pair "
         "out of a menu of 6-8 argument lists for a task with *rest / keyword-only / **kw parameters called as pre- and "
-        "post-task; thorough adds every 4-task graph (3468) x every "
+        "post-task, every ordered pair out of 20 awkward values (as keyword / positional of a defaulted parameter) and out of 9 "
+        "*rest / **kw spellings for a task called as pre- and post-task, 81 pairs of (name, kwargs) requests; thorough adds every 4-task graph (3468) x every "
         "request list of length <=2 with dedupe on, a random 12% of the length-3 requests / 25% of the dedupe-off runs")
 TRUSTED = ["Lean 4.33 kernel", "axioms propext/Classical.choice/Quot.sound only",
            "harness/props/c04.py correspondence + canonicalisation (Task subclass that records the literal call arguments)",
            "CPython argument binding, dict/tuple equality (modelled: kwEq, bind, bindS; the oracle binds with its own bound_of)",
            "model Invoke/Model/Executor.lean hand-written, tied by correspondence on every run"]
 ASSUMPTIONS = ["task graphs are acyclic (a cyclic pre/post graph makes expand_calls recurse forever; outside the property)",
-               "argument values are ints and strings (Python's 1 == True == 1.0 coincidences are not modelled)",
+               "two invocations are identical iff same task and the bound arguments compare equal with Python == (so 1, 1.0 and True "
+               "are one value, two NaN objects are not, one NaN object reached twice through one call entry is); the model sees a "
+               "value only as its ==-class within the case; hashability is not modelled",
                "one execute() call is one session: nothing carries over to a later execute() on the same Executor; each "
                "occurrence of a task is surrounded by the pre/post lists of THAT Task object as they are when execute() starts",
                "Task objects that are one dict key (same name, same body function) share one entry of the returned mapping; the "
@@ -93,10 +99,68 @@ MENUS = [
 
 # ------------------------------------------------------------------ building the real objects
 
+class EqObj:
+    """an argument object with a custom __eq__ (equal iff same k) and no __hash__"""
+    __hash__ = None
+
+    def __init__(self, k):
+        self.k = k
+
+    def __eq__(self, other):
+        return isinstance(other, EqObj) and other.k == self.k
+
+    def __repr__(self):
+        return "EqObj(%r)" % (self.k,)
+
+
+class Values:
+    """Argument values of one case.  A value is written as a JSON spec
+        ["i",n] ["s",txt] ["f",x] ["b",bool] ["none"] ["nan",uid] ["obj",k]
+        ["l",[specs]] ["t",[specs]] ["set",[specs]] ["d",[[key,spec],...]]
+    mat() builds a FRESH Python object for every use (equal-but-distinct lists, dicts, ...); a NaN is one float
+    object per uid (a call entry reached twice passes the same object twice, two entries never share one).
+    cls() numbers the objects of the case by Python `==` - the only thing the model knows about a value."""
+
+    def __init__(self):
+        self.nans = {}
+        self.pool = []
+
+    def mat(self, v):
+        k = v[0]
+        if k in ("i", "s", "f", "b"):
+            return v[1]
+        if k == "none":
+            return None
+        if k == "nan":
+            return self.nans.setdefault(v[1], float("nan"))
+        if k == "obj":
+            return EqObj(v[1])
+        if k == "l":
+            return [self.mat(x) for x in v[1]]
+        if k == "t":
+            return tuple(self.mat(x) for x in v[1])
+        if k == "set":
+            return set(self.mat(x) for x in v[1])
+        if k == "d":
+            return dict((kk, self.mat(x)) for kk, x in v[1])
+        raise ValueError(v)
+
+    def cls(self, obj):
+        for n, rep in enumerate(self.pool):
+            try:
+                if rep is obj or rep == obj:
+                    return n
+            except Exception:  # noqa
+                pass
+        self.pool.append(obj)
+        return len(self.pool) - 1
+
+
 class Runtime:
     def __init__(self):
         self.log = []  # (tid, bound dict, literal pos, literal kw)
         self.literal = None
+        self.vs = Values()
 
 
 def make_body(rt, name, params, uid):
@@ -136,14 +200,14 @@ def rt_enter(rt, tid, bound, uid=None):
     return ("ret", len(rt.log) - 1)
 
 
-def mk_calls(tasks, lst):
+def mk_calls(tasks, lst, vs):
     from invoke import Call
     out = []
     for j, pos, kw in lst:
         if not pos and not kw:
             out.append(tasks[j])
         else:
-            out.append(Call(tasks[j], args=tuple(v[1] for v in pos), kwargs={k: v[1] for k, v in kw}))
+            out.append(Call(tasks[j], args=tuple(vs.mat(v) for v in pos), kwargs={k: vs.mat(v) for k, v in kw}))
     return out
 
 
@@ -169,7 +233,7 @@ def build(case):
             makers[i] = make_body(rt, t["name"], t["params"], i)
             body = makers[i](rt, i)
         bodies[i] = body
-        obj = LTask(body, name=t["name"], pre=mk_calls(tasks, t["pre"]), post=mk_calls(tasks, t["post"]),
+        obj = LTask(body, name=t["name"], pre=mk_calls(tasks, t["pre"], rt.vs), post=mk_calls(tasks, t["post"], rt.vs),
                     autoprint=bool(t.get("autoprint")), aliases=tuple(t.get("aliases") or ()))
         obj._vidx = i
         tasks.append(obj)
@@ -207,16 +271,6 @@ def spellings(case, idx, cli):
 
 def req_name(item, names):
     return item[2] if len(item) > 2 and item[2] else names[item[0]]
-
-
-def canon_val(v):
-    if isinstance(v, bool):
-        return ["?", repr(v)]
-    if isinstance(v, int):
-        return ["i", v]
-    if isinstance(v, str):
-        return ["s", v]
-    return ["?", repr(v)]
 
 
 def argv_for(case, names):
@@ -277,7 +331,8 @@ def run_impl(case):
             for t, v in res.items():
                 vi = getattr(t, "_vidx", None)
                 results[keyc[vi] if vi is not None and vi < len(keyc) else "?%s" % getattr(t, "name", t)] = v
-        sessions.append({"log": list(rt.log[start:]), "results": results, "reqkw": reqkw, "error": err, "base": start})
+        sessions.append({"log": list(rt.log[start:]), "results": results, "reqkw": reqkw, "error": err, "base": start,
+                         "vs": rt.vs})
 
     def by_position(cs, contexts):
         items = cs["req"]
@@ -339,14 +394,14 @@ def run_impl(case):
         try:
             if k == 1:
                 for i, slot, lst in case["second"].get("edits", []):
-                    setattr(tasks[i], slot, mk_calls(tasks, lst))
+                    setattr(tasks[i], slot, mk_calls(tasks, lst, rt.vs))
             with contextlib.redirect_stdout(sink), contextlib.redirect_stderr(sink):
                 if form == "names":
                     req = [req_name(it, names) for it in cs["req"]]
                     reqkw = [(it[0], {}) for it in cs["req"]]
                 elif form == "pairs":
-                    req = [(req_name(it, names), dict((kk, v[1]) for kk, v in it[1])) for it in cs["req"]]
-                    reqkw = [(it[0], dict((kk, v[1]) for kk, v in it[1])) for it in cs["req"]]
+                    reqkw = [(it[0], dict((kk, rt.vs.mat(v)) for kk, v in it[1])) for it in cs["req"]]
+                    req = [(req_name(it, names), kwo) for it, (_i, kwo) in zip(cs["req"], reqkw)]
                 else:
                     pr = Parser(root.to_contexts(), initial=ParserContext()).parse_argv(argv_for(cs, names))
                     req = list(pr[1:])
@@ -364,16 +419,17 @@ def enc_chars(s):
     return ".".join(str(ord(c)) for c in s)
 
 
-def enc_val(v):
-    return ("i%d" % v[1]) if v[0] == "i" else ("s" + enc_chars(v[1]))
+def enc_obj(vs, obj):
+    """a value as the model sees it: its number among the values of the case, by Python =="""
+    return "i%d" % vs.cls(obj)
 
 
-def enc_kw(kw):
-    return "+".join("%s=%s" % (enc_chars(k), enc_val(v)) for k, v in kw)
+def enc_kw_obj(vs, items):
+    return "+".join("%s=%s" % (enc_chars(k), enc_obj(vs, o)) for k, o in items)
 
 
-def enc_pos(pos):
-    return "+".join(enc_val(v) for v in pos)
+def enc_pos_obj(vs, objs):
+    return "+".join(enc_obj(vs, o) for o in objs)
 
 
 def classes(case):
@@ -385,30 +441,33 @@ def classes(case):
     return out
 
 
-def model_line(case, reqkw):
+def model_line(case, reqkw, vs):
     cls, keyc = classes(case), key_classes(case)
     ts = []
     for i, t in enumerate(case["tasks"]):
         def calls(lst):
-            return ",".join("%d/%s/%s" % (j, enc_pos(pos), enc_kw(kw)) for j, pos, kw in lst)
+            return ",".join("%d/%s/%s" % (j, enc_pos_obj(vs, [vs.mat(v) for v in pos]),
+                                          enc_kw_obj(vs, [(k, vs.mat(v)) for k, v in kw])) for j, pos, kw in lst)
+
         def plist(ps):
-            return "+".join((enc_chars(q[0]) + "!") if q[1] is None else "%s=%s" % (enc_chars(q[0]), enc_val(q[1])) for q in ps)
+            return "+".join((enc_chars(q[0]) + "!") if q[1] is None else "%s=%s" % (enc_chars(q[0]), enc_obj(vs, vs.mat(q[1])))
+                            for q in ps)
         sig = "%s~%s~%d~%d" % (plist(named_params(t["params"], ("pk",))), plist(named_params(t["params"], ("ko",))),
                                has_kind(t["params"], "var"), has_kind(t["params"], "varkw"))
         ts.append("%d:%d:%s:%s:%s" % (cls[i], keyc[i], sig, calls(t["pre"]), calls(t["post"])))
-    req = ",".join("%d/%s" % (i, enc_kw([(k, canon_val(v)) for k, v in kw.items()])) for i, kw in reqkw)
+    req = ",".join("%d/%s" % (i, enc_kw_obj(vs, list(kw.items()))) for i, kw in reqkw)
     dflt = case.get("default")
     return "exec %d %s %s %s" % (1 if case["dedupe"] else 0, "-" if dflt is None else str(dflt), ";".join(ts) or "-", req or "-")
 
 
 def canon_impl(r):
+    vs = r["vs"]
     log = []
     for tid, _bound, pos, kw in r["log"]:
         if pos is None or kw is None:  # the literal call arguments were not observable (Task.__call__ bypassed)
             log.append("%d/?/?" % tid)
             continue
-        log.append("%d/%s/%s" % (tid, enc_pos([canon_val(v) for v in pos]),
-                                 enc_kw(sorted((k, canon_val(v)) for k, v in kw.items()))))
+        log.append("%d/%s/%s" % (tid, enc_pos_obj(vs, pos), enc_kw_obj(vs, sorted(kw.items(), key=lambda kv: kv[0]))))
     res = "-"
     if r["results"] is not None:
         res = ",".join("%s=%d" % (k, v[1] - r.get("base", 0)) for k, v in sorted(r["results"].items(), key=lambda kv: str(kv[0])))
@@ -425,44 +484,49 @@ def canon_model(out):
 
 # ------------------------------------------------------------------ oracle (states the property)
 
-def bound_of(case, idx, pos, kw):
+def bound_of(case, idx, pos, kw, vs):
     """the arguments the body must receive (own binding against the signature, independent of invoke): positionals fill
     the positional-or-keyword parameters in order, further ones go to *rest; keywords go to the parameter of that name,
     others to **kw; then defaults"""
     out = {}
     params = case["tasks"][idx]["params"]
-    kwd = dict((k, v[1]) for k, v in kw)
+    kwd = dict((k, vs.mat(v)) for k, v in kw)
     pk = named_params(params, ("pk",))
     for n, p in enumerate(pk):
         if n < len(pos):
-            out[p[0]] = pos[n][1]
+            out[p[0]] = vs.mat(pos[n])
         elif p[0] in kwd:
             out[p[0]] = kwd.pop(p[0])
         else:
-            out[p[0]] = None if p[1] is None else p[1][1]
+            out[p[0]] = None if p[1] is None else vs.mat(p[1])
     for p in params:
         k = pkind(p)
         if k == "var":
-            out[p[0]] = [v[1] for v in pos[len(pk):]]
+            out[p[0]] = [vs.mat(v) for v in pos[len(pk):]]
         elif k == "ko":
-            out[p[0]] = kwd.pop(p[0]) if p[0] in kwd else (None if p[1] is None else p[1][1])
+            out[p[0]] = kwd.pop(p[0]) if p[0] in kwd else (None if p[1] is None else vs.mat(p[1]))
     for p in params:
         if pkind(p) == "varkw":
             out[p[0]] = dict(kwd)
     return out
 
 
-def ref_expand(case, idx, pos, kw, lit_kw=None):
+def ref_expand(case, idx, pos, kw, vs, lit_kw=None, memo=None):
     """recursive reference definition: pre-tasks (expanded), the task, post-tasks (expanded).
-    entries: (task, bound arguments, literal spelling)"""
+    entries: (task, bound arguments, literal spelling).  One call entry reached twice yields the same argument objects
+    twice (memo), as the same Call object does."""
+    memo = {} if memo is None else memo
     out = []
     t = case["tasks"][idx]
-    for j, p, k in t["pre"]:
-        out += ref_expand(case, j, p, k)
-    lit = (tuple(v[1] for v in pos), dict((k, v[1]) for k, v in kw) if lit_kw is None else lit_kw)
-    out.append((idx, bound_of(case, idx, pos, kw), lit))
-    for j, p, k in t["post"]:
-        out += ref_expand(case, j, p, k)
+    for e in t["pre"]:
+        out += ref_expand(case, e[0], e[1], e[2], vs, None, memo)
+    key = (id(pos), id(kw))
+    if key not in memo:
+        lit = (tuple(vs.mat(v) for v in pos), dict((k, vs.mat(v)) for k, v in kw) if lit_kw is None else lit_kw)
+        memo[key] = (bound_of(case, idx, pos, kw, vs), lit, pos, kw)  # keep pos/kw alive: ids stay unique
+    out.append((idx, memo[key][0], memo[key][1]))
+    for e in t["post"]:
+        out += ref_expand(case, e[0], e[1], e[2], vs, None, memo)
     return out
 
 
@@ -484,14 +548,15 @@ def oracle(case, r):
         return "execution raised " + r["error"]
     req = case["req"]
     reqkw = r["reqkw"]
+    vs, memo = r["vs"], {}
     if not req and case.get("default") is not None:
-        full = ref_expand(case, case["default"], [], [])
+        full = ref_expand(case, case["default"], [], [], vs, None, memo)
     else:
         full = []
         for n, it in enumerate(req):
             idx, kw = it[0], it[1]
             lit_kw = reqkw[n][1] if reqkw is not None and n < len(reqkw) else None
-            full += ref_expand(case, idx, [], kw, lit_kw)
+            full += ref_expand(case, idx, [], kw, vs, lit_kw, memo)
     if case["dedupe"]:
         want = first_occurrences(full, lambda e: (e[0], sorted(e[1].items())))
     else:
@@ -551,8 +616,30 @@ def replay(case):
 
 # ------------------------------------------------------------------ generators
 
-def rand_value(rng, param):
-    if param[1] is not None and param[1][0] == "i":
+_A, _B = ["s", "a"], ["s", "b"]
+_K1, _K2 = ["d", [["k", ["i", 1]]]], ["d", [["k", ["i", 2]]]]
+# unhashable and otherwise awkward argument values; few enough that equal ones meet often
+AWKWARD = [
+    ["l", [_A]], ["l", [_A]], ["l", [_A, _B]], _K1, _K1, _K2, ["set", [["i", 1], ["i", 2]]], ["t", [_A]],
+    ["l", [["l", [_A]], _K1]], ["l", [["l", [_A]], _K1]], ["d", [["k", ["l", [_A]]]]],
+    ["i", 1], ["f", 1.0], ["b", True], ["i", 0], ["f", 0.0], ["b", False], ["none"],
+    ["obj", 1], ["obj", 1], ["obj", 2], "nan", "nan-in-list",
+]
+
+
+def rand_awkward(rng):
+    v = rng.choice(AWKWARD)
+    if v == "nan":
+        return ["nan", rng.randrange(1 << 30)]
+    if v == "nan-in-list":
+        return ["l", [["nan", rng.randrange(1 << 30)]]]
+    return v
+
+
+def rand_value(rng, param, awkward=0.0):
+    if awkward and rng.random() < awkward:
+        return rand_awkward(rng)
+    if param is not None and param[1] is not None and param[1][0] == "i":
         return ["i", rng.choice(INTS)]
     return ["s", rng.choice(STRS)]
 
@@ -564,22 +651,23 @@ def rand_call(rng, tasks, j, allow_plain=True):
     required = [p for p in pk if p[1] is None]
     exotic = len(pk) != len(params)
     pos, kw = [], []
+    aw = rng.choice([0.0, 0.0, 0.35, 0.7])  # how often this entry carries lists, dicts, sets, 1/1.0/True, NaN, objects
     if required or exotic or not allow_plain or rng.random() < 0.5:
         # positional prefix of random length, rest by keyword
         npos = min(rng.choice([0, 0, 1, len(pk)]) if pk else 0, len(pk))
         if has_kind(params, "var") and rng.random() < 0.7:
             npos = len(pk)
         for p in pk[:npos]:
-            pos.append(rand_value(rng, p))
+            pos.append(rand_value(rng, p, aw))
         if has_kind(params, "var") and npos == len(pk):
             for _ in range(rng.choice([0, 1, 1, 2, 2, 3])):  # the extra positionals of *rest
-                pos.append(["s", rng.choice(STRS)])
+                pos.append(rand_value(rng, None, aw))
         for p in pk[npos:] + named_params(params, ("ko",)):
             if p[1] is None or rng.random() < 0.6:
-                kw.append([p[0], rand_value(rng, p)])
+                kw.append([p[0], rand_value(rng, p, aw)])
         if has_kind(params, "varkw"):
             for name in rng.sample(["z", "w"], rng.choice([0, 0, 1, 1, 2])):  # the entries of **kw
-                kw.append([name, ["i", rng.choice(INTS)]])
+                kw.append([name, rand_awkward(rng) if rng.random() < aw else ["i", rng.choice(INTS)]])
         rng.shuffle(kw)
     return [j, pos, kw]
 
@@ -618,12 +706,13 @@ def rand_req(rng, tasks, form, prefer=()):
                 continue
             kw = []
             if form != "names":
+                aw = rng.choice([0.0, 0.0, 0.4]) if form == "pairs" else 0.0
                 for p in named_params(params):
                     if p[1] is None or rng.random() < 0.6:
-                        kw.append([p[0], rand_value(rng, p)])
+                        kw.append([p[0], rand_value(rng, p, aw)])
                 if has_kind(params, "varkw"):
                     for name in rng.sample(["z", "w"], rng.choice([0, 1, 1, 2])):
-                        kw.append([name, ["i", rng.choice(INTS)]])
+                        kw.append([name, rand_awkward(rng) if rng.random() < aw else ["i", rng.choice(INTS)]])
             req.append([j, kw, rng.choice(spellings({"tasks": tasks}, j, cli))])
             break
     return req
@@ -782,18 +871,46 @@ def run(ctx):
             for dd in (True, False):
                 cases.append({"tasks": g, "default": None, "form": "names", "req": [[1, []]], "dedupe": dd,
                               "dedupe_via": "config"})
+    # 2e. unhashable / awkward argument values: one task called as pre- and as post-task of another with every ordered
+    #     pair out of a menu of values (equal lists, dicts, sets and nested containers written twice, 1 / 1.0 / True,
+    #     two NaNs, objects with their own __eq__, the default left out), as keyword, as positional, as *rest extra and
+    #     as **kw entry
+    L1, L1b, L2 = ["l", [_A]], ["l", [["s", "a"]]], ["l", [_A, _B]]
+    NEST = ["l", [["l", [_A]], _K1]]
+    vals = [L1, L1b, L2, _K1, ["d", [["k", ["i", 1]]]], _K2, ["set", [["i", 1], ["i", 2]]], ["set", [["i", 2], ["i", 1]]], NEST,
+            ["l", [["l", [["s", "a"]]], ["d", [["k", ["i", 1]]]]]], ["i", 1], ["f", 1.0], ["b", True], ["nan", 1], ["nan", 2],
+            ["obj", 1], ["obj", 1], ["obj", 2], ["none"], None]
+    spell = lambda v, how: ([], []) if v is None else (([v], []) if how else ([], [["t", v]]))  # noqa: E731
+    for n1, v1 in enumerate(vals):
+        for n2, v2 in enumerate(vals):
+            c1, c2 = spell(v1, (n1 + n2) % 2), spell(v2, n1 % 2)
+            g = [_t("build", [["t", ["i", 1]]]), _t("main", pre=[[0, c1[0], c1[1]]], post=[[0, c2[0], c2[1]]])]
+            for dd in (True, False):
+                cases.append({"tasks": g, "default": None, "form": "names", "req": [[1, []]], "dedupe": dd, "dedupe_via": "config"})
+    xcalls = [([_A, L1], []), ([_A, L1b], []), ([_A, L2], []), ([_A, L1, L1], []), ([_A], [["z", _K1]]),
+              ([_A], [["z", ["d", [["k", ["i", 1]]]]]]), ([_A], [["z", _K2]]), ([_A], [["z", ["nan", 3]]]), ([_A], [["z", ["nan", 3]]])]
+    for c1, c2 in itertools.product(xcalls, repeat=2):
+        g = [_t("stop", [["x", None], ["rest", None, "var"], ["kw", None, "varkw"]]),
+             _t("main", pre=[[0, c1[0], c1[1]]], post=[[0, c2[0], c2[1]]])]
+        for dd in (True, False):
+            cases.append({"tasks": g, "default": None, "form": "names", "req": [[1, []]], "dedupe": dd, "dedupe_via": "config"})
+    # ... and as direct (name, kwargs) requests
+    for v1, v2 in itertools.product([L1, L1b, L2, _K1, ["d", [["k", ["i", 1]]]], ["i", 1], ["b", True], ["obj", 1], ["obj", 1]], repeat=2):
+        g = [_t("build", [["t", ["i", 1]]])]
+        cases.append({"tasks": g, "default": None, "form": "pairs", "req": [[0, [["t", v1]]], [0, [["t", v2]]]], "dedupe": True,
+                      "dedupe_via": "config"})
     out.exhaustive = True
     n_exh = len(cases)
     # 3. random graphs with parameters, baked arguments, all request forms, several names per task, shared bodies,
     #    a second session on the same Executor object
-    for _ in range(ctx.n(3500, 50000)):
+    for _ in range(ctx.n(3000, 50000)):
         cases.append(random_case(rng))
     fails = []
     runs = []  # (case number, session number, case as it stands in that session, implementation result)
     for n, c in enumerate(cases):
         for k, r in enumerate(run_impl(c)):
             runs.append((n, k, session_case(c, k), r))
-    lines = [model_line(cs, r["reqkw"] or []) for (_n, _k, cs, r) in runs]
+    lines = [model_line(cs, r["reqkw"] or [], r["vs"]) for (_n, _k, cs, r) in runs]
     model = drv.run(lines) if ctx.model_ok else [None] * len(lines)
     for (n, k, cs, r), m in zip(runs, model):
         c = cases[n]
@@ -817,6 +934,11 @@ def run(ctx):
                     out.hist["with_namesakes(different_bodies)"] += 1
                 if any(not cli_requestable(t["params"]) or has_kind(t["params"], "ko") for t in c["tasks"]):
                     out.hist["with_varargs_kwonly_or_varkw_signature"] += 1
+                blob = json.dumps([t["pre"] + t["post"] for t in c["tasks"]] + [c["req"]])
+                if any(x in blob for x in ('["l", [', '["d", [', '["set", [', '["obj", ')):
+                    out.hist["with_unhashable_arguments"] += 1
+                if any(x in blob for x in ('["f", ', '["b", ', '["nan", ', '["none"]', '["t", [')):
+                    out.hist["with_cross_type_equal_nan_or_none_arguments"] += 1
                 if c.get("default") is not None:
                     out.hist["default_task"] += 1
                 if any(pos or kw for t in c["tasks"] for (_j, pos, kw) in t["pre"] + t["post"]):
